@@ -364,6 +364,36 @@ Fixpoint fields_of (force_text : bool) (m : msg) : list (str * tag) :=
          end
   end.
 
+(* the components whose NBT image is a well-formed document: every string shorter than 2^15 bytes (the
+   length prefix is an int16), every list shorter than 2^31, no mixed argument list *)
+Definition style_ok (s : style) : bool :=
+  str_ok (s_font s) && str_ok (s_color s) && str_ok (s_insertion s)
+  && match s_click s with Some (a, v) => str_ok a && str_ok v | None => true end.
+Fixpoint msg_ok (m : msg) : bool :=
+  match m with
+  | Msg t s h tr w e =>
+      str_ok t && style_ok s
+      && match h with Some (a, v) => str_ok a && msg_ok v | None => true end
+      && str_ok tr
+      && (lenN w <? 2^31) && args_homog w
+      && forallb (fun x => match x with AM m' => msg_ok m' | AS z => str_ok z end) w
+      && (lenN e <? 2^31) && forallb msg_ok e
+  end.
+
+(* specification side: the keys a component's compound must carry, in struct order *)
+Definition is_some {A} (o : option A) : bool := match o with Some _ => true | None => false end.
+Definition expected_keys (force_text : bool) (m : msg) : list str :=
+  match m with
+  | Msg t s h tr w e =>
+      opt (force_text || negb (is_nil t)) k_text
+      ++ (opt (s_bold s) k_bold ++ opt (s_italic s) k_italic ++ opt (s_underlined s) k_underlined
+          ++ opt (s_strike s) k_strike ++ opt (s_obf s) k_obf
+          ++ opt (negb (is_nil (s_font s))) k_font ++ opt (negb (is_nil (s_color s))) k_color
+          ++ opt (negb (is_nil (s_insertion s))) k_insertion ++ opt (is_some (s_click s)) k_click)
+      ++ opt (is_some h) k_hover ++ opt (negb (is_nil tr)) k_translate
+      ++ opt (negb (is_nil w)) k_with ++ opt (negb (is_nil e)) k_extra
+  end.
+
 Definition to_nbt (m : msg) : tag := TComp (fields_of (is_nil (m_translate m)) m).
 (* Message.WriteTo: pk.NBT in network format; nbt.Marshal(m): classic format with the empty name *)
 Definition wire (m : msg) : list N := enc_net (to_nbt m).
